@@ -18,6 +18,7 @@ package c12
 import (
 	"encoding/json"
 	"fmt"
+	"math/big"
 	"math/rand"
 	"path/filepath"
 	"runtime"
@@ -38,13 +39,17 @@ type tcase struct {
 	render func(f *coqgen.File) string // the `tinput` term
 	obs    int
 	input  any
+	needB  []string             // primitive hash calls recorded for this case
+	needH  []string
+	fl     []func(*floats.Rec) // float primitives recorded for this case
 }
 
 type drv struct {
 	cfg     *common.Config
 	rep     *common.Report
 	loader  *ctxload.Loader
-	fr      *floats.Rec
+	fr      *floats.Rec // float primitives of the RDF cases
+	flJ     []func(*floats.Rec)
 	prims   *primRec
 	mu      sync.Mutex
 	cases   []*tcase
@@ -54,9 +59,18 @@ type drv struct {
 }
 
 func (d *drv) addCase(term func(f *coqgen.File) string, class string, input any) {
+	b, h := d.prims.take()
 	d.mu.Lock()
 	defer d.mu.Unlock()
-	d.cases = append(d.cases, &tcase{render: term, obs: obsCode(class), input: input})
+	d.cases = append(d.cases, &tcase{render: term, obs: obsCode(class), input: input, needB: b, needH: h, fl: d.flJ})
+	d.flJ = nil
+}
+
+// float primitives are journalled per case (sequential streams only)
+func (d *drv) flStr(s string) { d.flJ = append(d.flJ, func(fr *floats.Rec) { fr.AddStr(s) }) }
+func (d *drv) flBits(b uint64) { d.flJ = append(d.flJ, func(fr *floats.Rec) { fr.AddBits(b) }) }
+func (d *drv) flInt(z *big.Int, unsigned bool) {
+	d.flJ = append(d.flJ, func(fr *floats.Rec) { fr.AddInt(z, unsigned) })
 }
 
 func lit(s string) func(*coqgen.File) string { return func(*coqgen.File) string { return s } }
@@ -119,13 +133,24 @@ func (d *drv) writeShards() error {
 		f := coqgen.NewFile("From GSP Require Import Value.Time Value.Model Value.Run Total.Model Total.Run.")
 		name := filepath.Join(d.cfg.OutDir, fmt.Sprintf("cases_C12_%03d.v", s))
 		var cs []string
+		needB, needH := map[string]bool{}, map[string]bool{}
+		fr := floats.New()
 		for i := lo; i < hi; i++ {
 			c := d.cases[i]
 			cs = append(cs, fmt.Sprintf("(%d, %s, %d)", i, c.render(f), c.obs))
 			d.rep.Case(name, i, c.input)
+			for _, k := range c.needB {
+				needB[k] = true
+			}
+			for _, k := range c.needH {
+				needH[k] = true
+			}
+			for _, fn := range c.fl {
+				fn(fr)
+			}
 		}
-		f.Add("Definition prim_ : raw_prim := " + d.prims.Coq(f) + ".")
-		f.Add("Definition floats_ : raw_floats := " + d.fr.Coq(f) + ".")
+		f.Add("Definition prim_ : raw_prim := " + d.prims.Coq(f, needB, needH) + ".")
+		f.Add("Definition floats_ : raw_floats := " + fr.Coq(f) + ".")
 		f.Add("Definition cases_ : list tcase := " + coqgen.List(cs) + ".")
 		f.Add("Definition M := Eval vm_compute in tmismatches prim_ floats_ cases_.")
 		f.Add("Print M.")
